@@ -484,6 +484,16 @@ class FieldStream(Stream):
             o['reenc'] = None if y is None else y.to_json()
         except Exception:
             o['reenc'] = None
+        # decode(T) depends only on T: decode, grow every list of that result in place, decode the SAME text again
+        try:
+            y1 = cls.from_json(t)
+            if y1 is not None:
+                for f, v in y1.__dict__.items():
+                    if isinstance(v, list):
+                        v.append('ZZ')
+        except Exception:
+            pass
+        o['dec_again'] = dec(t)
         o['textx'] = self.textx(t, case['extras'], case['absent'])
         o['decx'] = dec(o['textx'])
         ukw = {k: copy.deepcopy(v) for k, v in case['ukw']}
@@ -516,7 +526,7 @@ class FieldStream(Stream):
             obs = [o['ctor']]
             textx = ''
         else:
-            obs = [o['ctor'], o['text'], o['dict'], o['dec'], o['reenc'], o['decx'], o['upd'], o['orig_after']]
+            obs = [o['ctor'], o['text'], o['dict'], o['dec'], o['reenc'], o['decx'], o['upd'], o['orig_after'], o['dec_again']]
             textx = o['textx']
         return '((%s, %s, %s, %s, %s), %s)' % (cnat(case['cls']), cbool(bool(case.get('fg'))), cobj([(k, v) for k, v in case['kw']]), cstr(textx),
                                            cobj([(k, v) for k, v in case['ukw']]), cjson(obs))
@@ -558,6 +568,9 @@ class FieldStream(Stream):
                 return 'roundtrip: %s field %s = %r decodes as %r%s' % (cn, bad[0], x[bad[0]], o['dec'].get(bad[0]), tag)
             if o['reenc'] != t:
                 return 'canonical: %s re-encoding differs' % cn
+        if not same(o['dec_again'], o['dec']):
+            return ('aliasing: %s.from_json of the SAME text %r gives %r after a list of the first result was grown in place '
+                    '(first decode: %r)' % (cn, t, o['dec_again'], o['dec']))
         if case['absent'] is not None:
             if o['decx'] is not None:
                 return 'roundtrip: %s absent text %r decoded to %r' % (cn, case['absent'], o['decx'])
@@ -700,6 +713,12 @@ class MiscStream(Stream):
             inp = ['text', render(rng, gen_value(rng, 2, False))]
         elif m == 7:
             inp = ['text', corrupt(rng, json.dumps(gen_value(rng, 2, False)))]
+        elif m == 8:
+            # non-ASCII payload whose length in characters is around MAX_SIZE/3, /2 or MAX_SIZE (where character, escaped and
+            # UTF-8 byte lengths part ways): whatever the constructor accepts must re-decode from its own .json
+            ch = rng.choice(['a', '\xe9', '\u4e2d'])
+            tot = rng.choice([mx // 3, mx // 2, mx, mx // 6]) + rng.choice([-2, -1, 0, 1, 2])
+            inp = ['obj', {'p': ch * max(0, tot - len(json.dumps({'p': ''})))}]
         else:
             base = json.dumps({'k': gen_str(rng)})
             tot = mx + rng.choice([-1, 0, 1, 2])
@@ -798,7 +817,8 @@ class MiscStream(Stream):
                  'extras': [['hops', 3, 'payload']], 'raw': None},
                 {'k': 'tuple', 'cat': 'cap', 'atype': 'ram', 'aval': 1000, 's2': 'cpu:2'},
                 {'k': 'tuple', 'cat': 'label', 'atype': 'mac', 'aval': '00:00:12:12:12:12', 's2': 'mac:something else'},
-                {'k': 'tuple', 'cat': 'location', 'atype': 'latlon', 'aval': ' 71.2345, 85.231', 's2': 'latlon: 71.2345, 85.231'}]
+                {'k': 'tuple', 'cat': 'location', 'atype': 'latlon', 'aval': ' 71.2345, 85.231', 's2': 'latlon: 71.2345, 85.231'}
+                ] + load_corpus('misc')
 
     # ---------------- observation
     def observe(self, case):
@@ -1072,7 +1092,10 @@ class MiscStream(Stream):
         elif k == 'jdata':
             if o['mutated']:
                 return 'purity: JSONData constructor modified its argument'
-            if is_err(o['again']) or o['again'] != o['text']:
+            if is_err(o['again']):
+                return ('roundtrip: %s accepted a value whose own .json (%d characters, %d UTF-8 bytes) it refuses to decode: %s' % (
+                    JD_NAMES[case['idx']], len(o['text']), len(o['text'].encode('utf-8', 'surrogatepass')), o['again']['err']))
+            if o['again'] != o['text']:
                 return 'canonical: %s text %r re-encodes as %r' % (JD_NAMES[case['idx']], o['text'][:60], o['again'])
             if not o['eq'] or not o.get('data_eq'):
                 return 'roundtrip: %s value not equal after decoding its own text' % JD_NAMES[case['idx']]
